@@ -114,6 +114,9 @@ fn main() {
             let recs = par_map(&cases, threads, |c| match kind.as_str() {
                 "opening" => pairs::opening_pairs(c),
                 "split" => pairs::split_pairs(c, seed),
+                "indep" => pairs::indep_pairs(c),
+                "layout" => pairs::layout_pairs(c, seed, false),
+                "relayout" => pairs::layout_pairs(c, seed.wrapping_add(c.id.len() as u64 * 7919 + c.files.iter().map(|f| f.len() as u64).sum::<u64>()), true),
                 _ => panic!("kind"),
             });
             let mut w = BufWriter::new(std::fs::File::create(out).unwrap());
@@ -122,8 +125,10 @@ fn main() {
             for rv in recs {
                 for r in rv {
                     writeln!(w, "{}", serde_json::to_string(&r).unwrap()).unwrap();
-                    writeln!(ws, "{}", serde_json::to_string(&r["a"]).unwrap()).unwrap();
-                    writeln!(ws, "{}", serde_json::to_string(&r["b"]).unwrap()).unwrap();
+                    if r["kind"] != "aggsum" {
+                        writeln!(ws, "{}", serde_json::to_string(&r["a"]).unwrap()).unwrap();
+                        writeln!(ws, "{}", serde_json::to_string(&r["b"]).unwrap()).unwrap();
+                    }
                     n += 1;
                 }
             }
